@@ -28,7 +28,7 @@ def rule_R1(ctx, f):
     ctx.rule(rid, "unordered-iteration table: every iteration over a HashMap/HashSet in the crate is order-insensitive (len, insertion into a set/map, "
                   "commutative fold/effect, early Err), or fills a sequence that is sorted before it escapes, or is a frozen deferred site discharged by R2")
     sites = un.enumerate_sites(f, only=lambda b: "process_collector" not in b.path and "::push::" not in b.path)
-    ctx.floor(rid, "unordered iteration sites in the crate", len(sites), 10)
+    ctx.floor(rid, "unordered iteration sites in the crate", len(sites), 6)
     classes = {}
     for s, o in sites:
         key = s.key(o)
